@@ -547,7 +547,7 @@ def _dbg(theorems, rule, extra_assumptions=()):
     }
 
 
-PROPS["C09"] = _dbg(
+PROPS["C09"] = dict(_dbg(
     ["Lace.C09.debug_transparent", "Lace.C09.iter_nonmut", "Lace.C09.detached_eq_plain",
      "Lace.C09.nextAction_nonmut", "Lace.DbgProofs.runCommand_nonmut"],
     "generated terminating programs (loops, nested JSR/RET and CALL/RETS subroutines, self-modifying stores, traps with "
@@ -559,9 +559,11 @@ PROPS["C09"] = _dbg(
     "(through --command, through standard input, or split across both; `;` or newline separated; aliases, letter "
     "case, number spellings, blank and invalid lines mixed in) and the driver derives the commands from the same text "
     "with the command-language model (Cmd.session) before running the debugger model — the two models are tied "
-    "together end to end, and C14's transport independence is checked at the level of effects.",
+    "together end to end, and C14's transport independence is checked at the level of effects. In addition (harness "
+    "id C09P) the real binary is spawned in pairs, `lace debug --command <text script>` vs `lace run`, in --minimal "
+    "AND normal output mode, and stdout + exit status must be identical.",
     ["I8: with program input present the script ends the debugger itself (quit/exit), otherwise the debugger would read the program's input as commands",
-     "transparency is claimed for scripts ending in quit / end of input; sessions containing `exit` end the program early by design and are only compared with the model"])
+     "transparency is claimed for scripts ending in quit / end of input; sessions containing `exit` end the program early by design and are only compared with the model"]), also=["C09P"], needs_bin=True)
 PROPS["C10"] = _dbg(
     ["Lace.C10.paused_machine_on_trajectory", "Lace.C10.stepInto_iter", "Lace.C10.continue_iter",
      "Lace.C10.stepOver_iter", "Lace.C10.stepOver_pauses", "Lace.C10.stepOut_iter", "Lace.C10.cmd_step",
